@@ -570,6 +570,12 @@ func ruleRomanSum(e *Env, rule string) {
 			seen[v] = true
 			switch x := v.(type) {
 			case *ssa.Convert:
+				// a conversion of the sum (or of a term) to a narrower integer type truncates it all the same
+				if w, ok := pred.IntWidth(x.Type()); ok && w < 64 && narrow == "" {
+					if wx, okx := pred.IntWidth(x.X.Type()); okx && wx > w {
+						narrow = fmt.Sprintf("%s converts a term of the sum to %s, %d bits wide on this target (%s)", x.String(), x.Type(), w, e.posOf(x))
+					}
+				}
 				walk(x.X, depth+1)
 			case *ssa.ChangeType:
 				walk(x.X, depth+1)
@@ -646,6 +652,11 @@ func ruleRomanSum(e *Env, rule string) {
 			}
 		}
 		if capName == "" {
+			return nil, false, nil
+		}
+		// only the function C10.value decides stands for "the value of a group": anything else on the way (a wrapper
+		// that rescales, a second table) is evaluated, not believed
+		if pg == nil || flow.Origin(fn) != flow.Origin(pg) {
 			return nil, false, nil
 		}
 		ordered := args
